@@ -18,16 +18,17 @@ import (
 )
 
 type specFunc struct {
-	File string `json:"file"`
-	Func string `json:"func"`
-	Fuel string `json:"fuel,omitempty"` // Coq nat expression over p0, p1, ... (default: sum of the lengths of the slice/string parameters + 2)
+	File  string   `json:"file"`
+	Func  string   `json:"func"`
+	Seeds []string `json:"seeds,omitempty"` // self-test: typical inputs (for the first string parameter) to mutate
+	Fuel  string   `json:"fuel,omitempty"`  // Coq nat expression over p0, p1, ... (default: sum of the lengths of the slice/string parameters + 2)
 }
 
 // specTable declares a package-level lookup table ([]bool indexed by a byte) whose content is built by the
 // package's init() function; init is translated too and the table is its result (see tables.go)
 type specTable struct {
-	File string `json:"file"`
-	Init string `json:"init"`  // name of the function that fills the tables (normally "init")
+	File string   `json:"file"`
+	Init string   `json:"init"` // name of the function that fills the tables (normally "init")
 	Vars []string `json:"vars"` // the package-level variables, in the order of the result tuple
 }
 
@@ -53,6 +54,7 @@ func main() {
 	specPath := flag.String("spec", "", "spec file")
 	dry := flag.Bool("n", false, "do not write the output file")
 	stdout := flag.Bool("stdout", false, "print the generated Coq source instead of writing it")
+	selftest := flag.String("selftest", "", "write the differential self-test program (Go) for this spec into the directory")
 	flag.Parse()
 	sum := summary{Spec: *specPath}
 	fail := func(msg string) {
@@ -73,6 +75,12 @@ func main() {
 	sum.Out = sp.Out
 	if sp.Module == "" || filepath.Base(sp.Out) != sp.Module+".v" {
 		fail(fmt.Sprintf("spec %s: \"out\" must be <dir>/<module>.v", *specPath))
+	}
+	if *selftest != "" {
+		if err := emitSelftest(*repo, &sp, *selftest); err != nil {
+			fail(err.Error())
+		}
+		return
 	}
 	text, names, err := translate(*repo, &sp)
 	if err != nil {
